@@ -140,7 +140,10 @@ func (p *Parser) parseNode(node, parent *yaml.Node, group *Group, offsetLine, of
 		}
 		return groups
 	case yaml.ScalarNode:
-		if strings.Count(node.Value, "\n") > 1 && node.Value != strings.Join(contentLines, "\n") && node.Line < len(contentLines) {
+		// Only block scalars keep their lines as they are in the file, line breaks in quoted
+		// scalars come from escapes and there are no lines in the file to point at.
+		isBlock := node.Style&(yaml.LiteralStyle|yaml.FoldedStyle) != 0
+		if isBlock && strings.Count(node.Value, "\n") > 1 && node.Value != strings.Join(contentLines, "\n") && node.Line < len(contentLines) {
 			var n yaml.Node
 			// FIXME there must be a better way.
 			// If we have YAML inside YAML:
